@@ -77,6 +77,7 @@ template<multi::dimensionality_type D, class F> void with_operand(char form, boo
 #ifndef TRACKED
 			switch(form) {
 				case 'v': { auto v = mkl(s); f(v); return; }
+				case 'r': { multi::array_ref<long, D> r(g_lmem + (s.base - g_mem), mk(s).extensions()); f(r); return; }
 				case 'a': { multi::array<long, D> a = mkl(s); f(a); return; }
 				default: break;
 			}
@@ -297,7 +298,7 @@ static void x_rows(bool as_range, int rd, long nrows, long rowlen, std::vector<l
 
 // executes one protocol line on the real library (generation and replay share this) --------------------------------
 static void exec_line(std::string const& line) {
-	std::fprintf(fprog, "%s\n", line.c_str());
+	std::fprintf(fprog, "%s\n", line.c_str()); std::fflush(fprog); std::fflush(fans);   // a crash must leave the offending line on disk
 	auto w = words_of(line);
 	if(w.empty() || w[0] == "#") return;
 	if(w[0] == "prog") { std::fprintf(fans, "%s\n", line.c_str()); reset_memory(); g_wins.clear(); return; }
@@ -394,6 +395,9 @@ static void emit_v(int dst, int src, std::string const& name, std::vector<long> 
 	Op op; op.name = name; op.a = a; exec_line(op_line(dst, src, op));
 }
 
+// the whole of src as a view in dst (taked(size()) is the identity)
+static void emit_whole(int dst, int src) { emit_v(dst, src, "taked", {any_sizes(regs[static_cast<std::size_t>(src)].v)[0]}); }
+
 static long pick_size(Rng& rng) { return (long[]){0, 1, 2, 3, 4, 5}[rng.pick({6, 14, 26, 24, 18, 12})]; }
 
 static std::vector<long> pick_sizes(Rng& rng, int D, long cap) {
@@ -426,8 +430,10 @@ static void build_embedded(std::vector<long> const& z, bool is_long, int rootreg
 	for(int j = 0; j < D; ++j) {
 		auto J = static_cast<std::size_t>(j);
 		long zz = z[static_cast<std::size_t>(sigma[J])];
-		if(a[J] != 0 || p[J] != 0 || f[J] != 1 || rng.coin(15)) { emit_v(viewreg, cur, "sliced", {a[J], a[J] + zz * f[J]}); cur = viewreg; }
-		if(f[J] != 1) { emit_v(viewreg, cur, "strided", {f[J]}); cur = viewreg; }
+		if(ne != 0) {   // an empty root reports every extension as [0,0): nothing to slice
+			if(a[J] != 0 || p[J] != 0 || f[J] != 1 || rng.coin(15)) { emit_v(viewreg, cur, "sliced", {a[J], a[J] + zz * f[J]}); cur = viewreg; }
+			if(f[J] != 1) { emit_v(viewreg, cur, "strided", {f[J]}); cur = viewreg; }
+		}
 		if(D > 1) { emit_v(viewreg, cur, "rotated"); cur = viewreg; }
 	}
 	// sort the axes: adjacent transposition (k, k+1) = rotated^k ; transposed ; unrotated^k
@@ -442,7 +448,7 @@ static void build_embedded(std::vector<long> const& z, bool is_long, int rootreg
 			std::swap(c[static_cast<std::size_t>(i - 1)], c[static_cast<std::size_t>(i)]); --i;
 		}
 	}
-	if(cur == rootreg) { emit_v(viewreg, rootreg, "sliced", {0, n.empty() ? 0 : n[0]}); }
+	if(cur == rootreg) { emit_whole(viewreg, rootreg); }
 }
 
 static void emit_mem_queries() {
@@ -471,6 +477,7 @@ static long random_element_addr(int reg, Rng& rng) {
 static long cell_value(long a) { return a < NCELL ? val_of(g_mem[a]) : g_lmem[a - NCELL]; }
 
 static char src_form(Rng& rng, Reg const& S) {
+	if(any_num_elements(S.v) == 0) return 'v';   // an owning copy of an empty view has collapsed extensions: not assignable to the view's shape
 	if(S.is_long) return rng.coin(75) ? 'v' : 'a';
 	return "vca"[rng.pick({55, 22, 23})];
 }
@@ -504,8 +511,9 @@ static void gen_mutations(int d, int s, Rng& rng, bool disjoint_ok) {
 			case 7: if(dim == 1 && sz[0] <= 6) exec_line("x ilist " + std::to_string(d) + vals_str(rng, sz[0])); else done = false; break;
 			case 8: if(dim == 1) exec_line("x range " + std::to_string(d) + vals_str(rng, sz[0])); else done = false; break;
 			case 9: if(dim == 1) exec_line("x assign1 " + std::to_string(d) + vals_str(rng, sz[0])); else done = false; break;
-			case 10: if(dim >= 2 && dim <= 4 && sz[0] <= 6) { long rowlen = 1; for(std::size_t j = 1; j < sz.size(); ++j) rowlen *= sz[j];
-				exec_line("x rows " + std::to_string(d) + " " + std::to_string(sz[0]) + " " + std::to_string(rowlen) + vals_str(rng, sz[0] * rowlen)); } else done = false; break;
+			case 10: { long rowlen = 1; for(std::size_t j = 1; j < sz.size(); ++j) rowlen *= sz[j];
+				// (a row array with no elements has collapsed extensions and is not assignable to a row of another empty shape)
+				if(dim >= 2 && dim <= 4 && sz[0] <= 6 && rowlen > 0) exec_line("x rows " + std::to_string(d) + " " + std::to_string(sz[0]) + " " + std::to_string(rowlen) + vals_str(rng, sz[0] * rowlen)); else done = false; break; }
 			case 11: if(dim == 2) exec_line("x rrows " + std::to_string(d) + " " + std::to_string(sz[0]) + " " + std::to_string(sz[1]) + vals_str(rng, sz[0] * sz[1])); else done = false; break;
 			case 12: exec_line("x assign " + ds + " " + ds); break;   // self-assignment
 			default: done = false; break;
@@ -556,7 +564,7 @@ static void gen_c05(Rng& rng) {
 			emit_root(0, alloc_root(dl, ne, rng), n);
 			int cur = 0; int nops = static_cast<int>(rng.range(1, 4));
 			for(int k = 0; k < nops; ++k) { Op op; if(!gen_any(regs[static_cast<std::size_t>(cur)].v, rng, op, 4)) break; exec_line(op_line(1, cur, op)); cur = 1; }
-			if(cur == 0) emit_v(1, 0, "sliced", {0, n[0]});
+			if(cur == 0) emit_whole(1, 0);
 			z = any_sizes(regs[1].v);
 			if(z.empty() || z.size() > 4) return;
 		}
@@ -576,9 +584,11 @@ static void gen_c05(Rng& rng) {
 		n[0] = 2 * h + (odd ? 1 : 0);
 		long ne = 1; for(long x : n) ne *= x;
 		emit_root(0, alloc_root(dl, ne, rng), n);
+		long n0 = any_sizes(regs[0].v)[0];   // the real leading size (0 when some other extent is empty)
+		h = n0 / 2;
 		if(rng.coin(50)) { emit_v(1, 0, "sliced", {0, h}); emit_v(11, 0, "sliced", {h, 2 * h}); }
-		else { emit_v(1, 0, "taked", {2 * h}); emit_v(1, 1, "strided", {2}); emit_v(11, 0, "dropped", {n[0] - 2 * h}); emit_v(11, 11, "strided", {2});
-			if(n[0] - 2 * h == 0) { emit_v(11, 0, "dropped", {h}); emit_v(1, 0, "taked", {h}); } }
+		else if(n0 % 2 == 1) { emit_v(1, 0, "taked", {2 * h}); emit_v(1, 1, "strided", {2}); emit_v(11, 0, "dropped", {1}); emit_v(11, 11, "strided", {2}); }
+		else { emit_v(1, 0, "taked", {h}); emit_v(11, 0, "dropped", {h}); }
 		// the same axis permutation on both sides keeps the extents equal
 		int np = static_cast<int>(rng.range(0, 2));
 		for(int k = 0; k < np; ++k) { char const* nm = (D >= 2 && rng.coin(50)) ? "transposed" : (rng.coin(50) ? "rotated" : "unrotated"); emit_v(1, 1, nm); emit_v(11, 11, nm); }
@@ -594,8 +604,8 @@ static void gen_c05(Rng& rng) {
 		emit_root(0, alloc_root(false, ne, rng), n);
 		bool embedded = rng.coin(35);
 		if(embedded) { build_embedded(n, sl, 10, 11, rng, false); }
-		else { emit_root(10, alloc_root(sl, ne, rng), n); emit_v(11, 10, "sliced", {0, n[0]}); }
-		emit_v(1, 0, "sliced", {0, n[0]});
+		else { emit_root(10, alloc_root(sl, ne, rng), n); emit_whole(11, 10); }
+		emit_whole(1, 0);
 		if(!same_shape(1, 11)) return;
 		int nops = static_cast<int>(rng.range(1, 3));
 		for(int k = 0; k < nops; ++k) {
@@ -677,7 +687,7 @@ static void gen_c07(Rng& rng) {
 	exec_line("q shape 1"); exec_line("q shape 11"); exec_line("q shape 21");
 	// make (some of) them equal, then perturb single elements
 	if(same_shape(11, 1) && rng.coin(75)) { exec_line("x assign v11 v1"); if(rng.coin(55)) perturb(rng.coin(50) ? 11 : 1, rng); }
-	if(same_shape(21, 1) && rng.coin(65)) { exec_line(std::string("x assign v21 v") + (rng.coin(50) ? "1" : "11")); if(rng.coin(55)) perturb(21, rng); }
+	{ int from = rng.coin(50) ? 1 : 11; if(same_shape(21, from) && rng.coin(65)) { exec_line("x assign v21 v" + std::to_string(from)); if(rng.coin(55)) perturb(21, rng); } }
 	if(kind == 2 && rng.coin(50)) {
 		// a proper prefix: copy the common leading block
 		if(rank_of(regs[1].v) == rank_of(regs[11].v)) {
